@@ -118,7 +118,8 @@ func (x *Exec) pf(bs []*Term) *Term {
 			arg = x.tb.Concat(arg, b)
 		}
 	}
-	return x.tb.UF(fmt.Sprintf("pf%d", len(bs)), SF64, arg)
+	// the contract function yields the IEEE bit pattern; equalities about it stay in bit-vector logic
+	return x.tb.FFromBits(x.tb.UF(fmt.Sprintf("pf%d", len(bs)), BV(64), arg))
 }
 
 func (x *Exec) formatFloat(f *Term, verb byte) strVal {
@@ -151,14 +152,24 @@ func (x *Exec) formatFloat(f *Term, verb byte) strVal {
 	}
 	switch verb {
 	case 'f':
-		// integer part: exact decimal expansion of trunc(abs) when it fits 2^63, else contract cannot describe it
-		if !x.branch(tb.fcmp(OFLt, abs, tb.F64(9.2e18))) {
-			panic(unsupported{"FormatFloat 'f' of |x| >= 9.2e18 (outside the stub's domain)"})
-		}
-		ip := tb.FToInt(abs, false, 64)
+		// shape contract: -?(0|[1-9][0-9]*)(\.[0-9]*[1-9])? with a fraction iff x is not integral.
+		// The digits are fresh (tied to x only by the round-trip contract PF(text) = x); the length
+		// of the integer part is an arbitrary choice up to FLTINT digits.
 		integral := x.branch(tb.fcmp(OFEq, tb.fun(OFRoundRTZ, abs), abs))
-		ids := x.decimalDigits(ip, 19)
-		out = append(out, ids...)
+		ipMax := x.bound("FLTINT", 7)
+		L := 1 + x.choose(int(ipMax), "int-len")
+		if L == 1 {
+			d := digit('0')
+			// a one-digit integer part is 0 exactly when |x| < 1
+			x.axiom(tb.Eq(tb.Eq(d, tb.bytes['0']), tb.fcmp(OFLt, abs, tb.F64(1))))
+			out = append(out, d)
+		} else {
+			x.axiom(tb.fcmp(OFLe, tb.F64(1), abs))
+			out = append(out, digit('1'))
+			for i := 1; i < L; i++ {
+				out = append(out, digit('0'))
+			}
+		}
 		if !integral {
 			out = append(out, tb.bytes['.'])
 			F := 1 + x.choose(int(fracMax), "frac-len")
@@ -205,7 +216,7 @@ func (x *Exec) formatFloat(f *Term, verb byte) strVal {
 		panic(unsupported{"FormatFloat verb " + string(verb)})
 	}
 	// round-trip contract: the text denotes x
-	x.axiom(tb.Eq(x.pf(out), f))
+	x.axiom(tb.Eq(tb.FToBits(x.pf(out)), tb.FToBits(f)))
 	return x.mkStr(out)
 }
 
